@@ -70,3 +70,7 @@ Fixpoint session (i : fint) (chunks : list (list fnode)) (acc : list (option err
 Definition run_session (chunks : list (list fnode)) (draws : list N) : list (option error) * qres :=
   let '(i, verdicts) := session int_empty chunks [] in
   (verdicts, finish_int i draws).
+(** the same from [Int::default().xor()] when [xor] *)
+Definition run_session_x (xor : bool) (chunks : list (list fnode)) (draws : list N) : list (option error) * qres :=
+  let '(i, verdicts) := session (if xor then int_xor int_empty else int_empty) chunks [] in
+  (verdicts, finish_int i draws).
